@@ -178,6 +178,46 @@ def gen_stall(rng, n, n_long):
     return out
 
 
+def gen_backpressure(rng, n):
+    """one peer sends while the other does not read (the bridge's write parks in the connection), then the sender goes away"""
+    out = []
+    for k in range(n):
+        d = rand_data(rng, rng.choice([1, 3, 64, 1000, BUF]))
+        c = {"mode": "backpressure", "dir": k % 2}
+        c["r1" if k % 2 == 0 else "r0"] = [dict(d, e=0)]
+        out.append(c)
+    return out
+
+
+def gen_reattach(rng, n):
+    """source re-attach histories on a live bridge (SetSourceConnection while bytes flow both ways)"""
+    def some(k):
+        return bytes(rng.randrange(256) for _ in range(k)).hex()
+    out = []
+    for _ in range(n):
+        h = []
+        def sends(lo, hi):
+            for _ in range(rng.randrange(lo, hi + 1)):
+                h.append({"op": rng.choice(["tsend", "ssend"]), "d": some(rng.choice([1, 2, 5, 40, 900]))})
+        sends(1, 3)
+        for _ in range(rng.choice([1, 1, 1, 2, 3])):
+            h.append({"op": "reattach"})
+            if rng.random() < 0.25:
+                h.append({"op": "reattach"})                       # re-attached twice before the old connection went away
+            h.append({"op": "tsend", "d": some(rng.choice([1, 3, 17]))})
+            sends(0, 2)
+            if rng.random() < 0.85:
+                h.append({"op": "closeold", "e": rng.choice([2, 2, 3])})
+                sends(1, 3)
+        if not any(o["op"] == "closeold" for o in h[-4:]) and h[-1]["op"] != "closeold":
+            pass
+        h.append({"op": "closeold", "e": 2})
+        sends(0, 2)
+        h.append({"op": "end", "who": rng.choice([0, 1])})
+        out.append({"mode": "reattach", "hist": h})
+    return out
+
+
 def stall_deterministic(c):
     """the direction that ends the tunnel has flushed >= 1 byte into its counter before it calls Close, so the final report
     made by Close's clean handler is due and parks in the stalled call"""
@@ -230,8 +270,20 @@ def case_value(c, o, sliced, bounded=False):
     if c["mode"] == "bridge":
         closer = o["closer"] if o["closer"] in (0, 1) else 2
         obs = [hb(o["out0"]), hb(o["out1"]), o["cnt0"], o["cnt1"], closer]
+        # a schedule that ends early is completed by the harness round-robin over the unfinished directions; steps of a
+        # finished direction are no-ops in the model, so the same completion is a long enough 0,1,0,1,... tail
+        tail = [0, 1] * (2 * (len(expand(c["r0"])) + len(expand(c["r1"]))) + 8)
         return [1, sliced, lim, False, v_reads(c["r0"]), v_writes(c["w0"]), v_reads(c["r1"]), v_writes(c["w1"]),
-                list(c["sched"]), obs]
+                list(c["sched"]) + tail, obs]
+    if c["mode"] == "reattach":
+        rs, sched = [], []
+        for op in c["hist"]:
+            if op["op"] == "tsend" and op.get("d"):
+                rs.append([hb(op["d"]), 0])
+                sched += [0, 0]
+            elif op["op"] == "reattach":
+                sched.append(1)
+        return [4, True, None, False, rs, [], [], [], sched, [hb(e) for e in o.get("ends") or []]]
     if c["mode"] == "stall":
         obs = [bool(o["src_closed"]), bool(o["tgt_closed"]), [bool(o["forgot_parked"])] if c.get("long") else None]
         return [3, True, [5] if bounded else None, False, [], [], [], [], [], obs]
@@ -248,6 +300,8 @@ def classify(c, o, sliced):
     key = o.get("prop_key") or "predicate"
     if key == "incomplete" and not sliced and c.get("limit", 0) > 0 and max_chunk(c) > 2 * c["limit"]:
         return KNOWN_KEY
+    if key == "reattach":
+        return "reattach-bytes-to-stale-end" if "did not reach the attached source end" in (o.get("prop_msg") or "") else "reattach-tunnel-broken"
     if key == "registry-parked":
         return STALL_KEY
     if key == "stuck" and c["mode"] == "stall":
@@ -264,11 +318,17 @@ def shrink(binary, case, want_key, sliced):
             return False
         return (not o["prop_ok"]) and classify(c, o, sliced) == want_key
     cur = json.loads(json.dumps(case))
+    import time
+    deadline = time.time() + 25          # a failing case may cost a whole watchdog period per attempt
     for _ in range(30):
+        if time.time() > deadline:
+            break
         changed = False
         for fld in ("r0", "r1", "w0", "w1", "ops"):
             lst = cur.get(fld) or []
             for i in range(len(lst)):
+                if time.time() > deadline:
+                    break
                 t = dict(cur, **{fld: lst[:i] + lst[i + 1:]})
                 if fails(t):
                     cur, changed = t, True
@@ -308,6 +368,8 @@ def run(ctx, only_cases=None):
         cases += gen_bridge(rng, 300 if thorough else 30, "free")
         cases += gen_life(rng, 200 if thorough else 25)
         cases += gen_stall(rng, 60 if thorough else 12, 6 if thorough else 2)
+        cases += gen_backpressure(rng, 20 if thorough else 4)
+        cases += gen_reattach(rng, 300 if thorough else 30)
     # the start race can kill the harness process (nil dereference inside a goroutine of Bridge.Start): own process
     race_cases = [c for c in cases if c["mode"] == "startrace"]
     cases = [c for c in cases if c["mode"] != "startrace"]
@@ -342,7 +404,7 @@ def run(ctx, only_cases=None):
             continue
         reported[key] = True
         small, so = c, o
-        if key not in ctx.known and only_cases is None and c["mode"] != "stall":
+        if key not in ctx.known and only_cases is None and c["mode"] in ("copy", "bridge", "free", "life"):
             small = shrink(binary, c, key, sliced)
             so = vlib.run_harness(binary, [small], timeout=120)[0]
         ctx.violation(key, "real tunnel.Bridge (%s mode): %s" % (c["mode"], so.get("prop_msg") or o.get("prop_msg")),
@@ -352,7 +414,7 @@ def run(ctx, only_cases=None):
     # (cases that push more than 150 KB are checked by the Go-side predicate only: the extracted list functions are not tail recursive)
     longs = [o["forgot_parked"] for c, o in zip(cases, outs) if c["mode"] == "stall" and c.get("long") and stall_deterministic(c) and o.get("parked")]
     bounded = bool(longs) and all(longs)       # does Close return while the stats call is parked (cleanup with a bounded wait)?
-    idx = [i for i, c in enumerate(cases) if (c["mode"] in ("copy", "bridge", "life") or (stall_deterministic(c) and outs[i].get("parked"))) and not outs[i].get("stuck")
+    idx = [i for i, c in enumerate(cases) if (c["mode"] in ("copy", "bridge", "life", "reattach") or (stall_deterministic(c) and outs[i].get("parked"))) and not outs[i].get("stuck")
            and len(readable(c.get("r0", []))) + len(readable(c.get("r1", []))) <= 150000]
     terms = [case_value(cases[i], outs[i], sliced, bounded) for i in idx]
     mism = []
@@ -388,11 +450,20 @@ def run(ctx, only_cases=None):
     dist = {"copy": 0, "bridge_gated": 0, "bridge_free": 0, "lifecycle": 0, "with_limiter": 0, "read_over_burst": 0,
             "write_faults": 0, "read_timeouts": 0, "read_errors": 0, "cancelled": 0, "both_directions_carry_data": 0,
             "bytes_through_real_code": 0, "closer_direction_0": 0, "closer_direction_1": 0, "duplicate_tunnel_ids": 0,
-            "stats_backend_stalled": 0, "final_report_parked": 0, "forget_required_while_parked": 0}
+            "stats_backend_stalled": 0, "final_report_parked": 0, "forget_required_while_parked": 0,
+            "write_parked_at_teardown": 0, "source_reattach_histories": 0, "reattaches": 0}
     for c, o in zip(cases, outs):
         h = hashlib.sha256(json.dumps(c, sort_keys=True).encode()).hexdigest()
         distinct.add(h)
         m = c["mode"]
+        if m in ("backpressure", "reattach"):
+            dist["write_parked_at_teardown"] += m == "backpressure"
+            dist["source_reattach_histories"] += m == "reattach"
+            dist["reattaches"] += sum(1 for op in c.get("hist", []) if op["op"] == "reattach")
+            dist["bytes_through_real_code"] += o.get("len0", 0) + sum(len(e) // 2 for e in o.get("ends") or [])
+            if o.get("start_returned"):
+                nontrivial.add(h)
+            continue
         if m == "stall":
             dist["stats_backend_stalled"] += 1
             dist["final_report_parked"] += bool(o.get("parked"))
@@ -434,7 +505,10 @@ def run(ctx, only_cases=None):
                 "stall cases: real startSourceBridge/runBridgeLifecycle with a cloud-control double whose GetPortMapping / UpdatePortMappingStats "
                 "parks once armed; bytes move, one end closes (or Bridge.Close is called), both ends must observe closure within 4 s WHILE the final "
                 "traffic report is parked, the tunnel map must forget the tunnel while parked (long cases, 7.5 s) and after release; non-trivial = "
-                "the report was parked and both ends were closed meanwhile.",
+                "the report was parked and both ends were closed meanwhile. backpressure cases: a write of the bridge is parked inside the connection "
+                "(peer not reading) when the sending peer goes away; teardown (both ends closed, tunnel forgotten) is required before the write is "
+                "drained. reattach cases: histories of tsend/ssend/SetSourceConnection(new)/old connection ends/end on a live bridge; every end must "
+                "have received exactly the bytes sent while it was attached; non-trivial = the tunnel ended and was forgotten.",
         "samples": [{"case": brief(cases[i]), "observed": {k: v for k, v in outs[i].items() if k in ("prop_ok", "len0", "len1", "cnt0", "cnt1", "closer", "order", "life", "nrd", "nwr", "total")}} for i in pick],
         "model_vs_impl_cases": len(terms), "model_vs_impl_mismatches": len(mism), "impl_property_failures": nfail,
         "input_distribution": dist, "generated_file_changed": gen_changed,
@@ -450,7 +524,9 @@ def run(ctx, only_cases=None):
         "'the other end observes closure within bounded time' is a wall-clock fact: checked by the harness watchdog only (PARTIAL, see C02_full_statement)",
         "stats backend (CloudControl.GetPortMapping / UpdatePortMappingStats) may answer arbitrarily late or never: a thread of its own in Model/PipeClose.v; "
         "whether the final report reaches cloud control at all (clean handler vs. the loops' counter flush) is outside C02 and only reported",
-        "not modelled: SetSourceConnection (source re-attach while bridged), cross-node forwarding (runBidirectionalForward uses io.Copy), traffic meter / quota throttling (never configured by startSourceBridge)",
+        "source re-attach: target->source side modelled (Model/Pipe.v qstep); the source->target loop's switch to the new connection (only after "
+        "the old connection's Read returns) is checked by the harness predicate only",
+        "not modelled: cross-node forwarding (runBidirectionalForward uses io.Copy), traffic meter / quota throttling (never configured by startSourceBridge)",
     ]
     if broken is not None:
         raise broken
